@@ -19,6 +19,9 @@
 (*    History          (last section) a builder object has a history - exported, changed, configured again,  *)
 (*                     parsed: EVERY export of a history is the export of a fresh object with the settings    *)
 (*                     of that moment (Offers / After / HistoryClauseOf; MC + GEN in MbiHist, TV in MbiTrace)  *)
+(*    Carried          (section "what a header field can hold") a requested number is either refused or the    *)
+(*                     field of the emitted header IS that number: never accepted and altered                  *)
+(*                     (MC + GEN in MbiRange, TV in MbiTrace)                                                  *)
 EXTENDS Naturals, Integers, Sequences, FiniteSets, TLC
 
 VARIABLES cls, x
@@ -226,4 +229,43 @@ ExportOf(v) == [img |-> Final(v), ivt |-> Ivt(v)]
 HistoryClauseOf(v) == InDomain(v) /\ HeaderDescribesOf(v) /\ RoundTripOf(v)
 \* actions that change how long the image is (the length word and every offset behind the change must follow)
 ChangesLength(v, lst, a) == Sum(Final(After(v, lst, a))) # Sum(Final(v))
+
+\* ------------------------------------------------------------------ what a header field can hold
+(* Every numeric setting travels in a field of FIXED width: image version 16 bits (upper half of the type/flags   *)
+(* word, plus the "version present" flag), image sub-type 2 bits of the same word, load address the 32-bit word   *)
+(* at 0x34, firmware version a 32-bit word of the image manifest.  A caller may REQUEST any natural number.       *)
+(* Requested numbers are wide values  <<l2, l1, l0>> = l2 * 2^32 + l1 * 2^16 + l0  (TLC integers have 32 bits).    *)
+(* The clause (Carried): a request is either REFUSED - nothing is built - or the field read from the emitted      *)
+(* bytes is the requested number and a reader gives the requested number back.  A field of n bits holds exactly    *)
+(* the numbers below 2^n (FieldHolds, checked in MbiRange), so a request that does not fit can only be refused:   *)
+(* accepted-and-altered (cut to the width, spilled into the neighbouring fields) is the violation.                *)
+Fields == {"imgVer", "sub", "load", "fwVer"}
+Width(f) == CASE f = "sub" -> 2 [] f = "imgVer" -> 16 [] OTHER -> 32
+FieldOffered(f) == CASE f = "imgVer" -> Has("ImageVersion") [] f = "sub" -> Has("ImageSubType") [] f = "load" -> HasLoad
+                     [] f = "fwVer" -> Manifest # "none" [] OTHER -> FALSE
+WZero == <<0, 0, 0>>
+IsWide(w) == Len(w) = 3 /\ \A k \in 1..3 : w[k] \in 0..65535
+WLess(a, b) == \/ a[1] < b[1] \/ (a[1] = b[1] /\ a[2] < b[2]) \/ (a[1] = b[1] /\ a[2] = b[2] /\ a[3] < b[3])
+Top(f) == CASE Width(f) = 2 -> <<0, 0, 3>> [] Width(f) = 16 -> <<0, 0, 65535>> [] OTHER -> <<0, 65535, 65535>>
+Fits(f, w) == ~WLess(Top(f), w)
+\* all a field of that width can do with a number: keep its low bits
+Cut(f, w) == CASE Width(f) = 2 -> <<0, 0, w[3] % 4>> [] Width(f) = 16 -> <<0, 0, w[3]>> [] OTHER -> <<0, w[2], w[3]>>
+WSucc(w) == IF w[3] < 65535 THEN <<w[1], w[2], w[3] + 1>> ELSE IF w[2] < 65535 THEN <<w[1], w[2] + 1, 0>> ELSE <<w[1] + 1, 0, 0>>
+\* value classes of a request (the case space of MbiRange; a logged request must lie in the class it claims)
+RangeClasses(f) == {"zero", "one", "top", "top1", "beyond"} \cup (IF Width(f) < 32 THEN {"alias", "word"} ELSE {})
+InClass(f, c, w) == IsWide(w) /\
+  CASE c = "zero"   -> w = WZero
+    [] c = "one"    -> w = <<0, 0, 1>>
+    [] c = "top"    -> w = Top(f)
+    [] c = "top1"   -> w = WSucc(Top(f))                                          \* the first number the field cannot hold
+    [] c = "alias"  -> ~Fits(f, w) /\ w[1] = 0 /\ w # WSucc(Top(f)) /\ Cut(f, w) # WZero /\ w # <<0, 65535, 65535>>
+                                                                                   \* too wide, still a 32-bit number; cut to the width it is another valid value
+    [] c = "word"   -> w = <<0, 65535, 65535>>                                    \* the largest number a 32-bit word carries
+    [] c = "beyond" -> w[1] > 0 /\ w # WSucc(Top(f))                              \* no 32-bit word carries it
+    [] OTHER -> FALSE
+\* the outcome of a request: o = [built, present, emitted, parsed]  (emitted: the field read from the bytes; present: the
+\* "version present" flag where the field has one; parsed: what a reader gives back)
+Carried(f, w, o) == o.built => /\ Fits(f, w)
+                               /\ o.emitted = w /\ o.parsed = w
+                               /\ (f = "imgVer" => o.present = (w # WZero))
 =============================================================================
